@@ -652,9 +652,9 @@ impl Tcb {
         final(self).outgoing.retransmit@.len() <= old(self).outgoing.retransmit@.len(),
         // only acknowledged segments leave the queue, everything kept was there before
         forall|k: int| 0 <= k < final(self).outgoing.retransmit@.len() ==>
-            old(self).outgoing.retransmit@.contains(#[trigger] final(self).outgoing.retransmit@[k]) && !fully_acked(final(self).outgoing.retransmit@[k], snd_una),   //# keeps_only_unacknowledged [C01,C12]
+            old(self).outgoing.retransmit@.contains(#[trigger] final(self).outgoing.retransmit@[k]) && !fully_acked(final(self).outgoing.retransmit@[k], snd_una),   //# keeps_only_unacknowledged [C01,C12,C02]
         forall|j: int| 0 <= j < old(self).outgoing.retransmit@.len() && !fully_acked(#[trigger] old(self).outgoing.retransmit@[j], snd_una) ==>
-            final(self).outgoing.retransmit@.contains(old(self).outgoing.retransmit@[j]),   //# never_drops_unacknowledged [C01,C12]
+            final(self).outgoing.retransmit@.contains(old(self).outgoing.retransmit@[j]),   //# never_drops_unacknowledged [C01,C12,C02]
 //@ loop 1
             invariant
                 same_but_queues(*self, *old(self)),
@@ -765,7 +765,7 @@ impl Tcb {
             && final(self).outgoing.retransmit@ == old(self).outgoing.retransmit@ && final(self).outgoing.oneshot@ == old(self).outgoing.oneshot@,   //# only_queues_text [C01,C17]
         // (C01) a write is accepted, in order and unmodified, exactly in the states that allow sending
         (old(self).state == State::SynSent || old(self).state == State::SynReceived || old(self).state == State::Established)
-            ==> final(self).outgoing.text@ == old(self).outgoing.text@ + message@,   //# appends_in_order [C01]
+            ==> final(self).outgoing.text@ == old(self).outgoing.text@ + message@,   //# appends_in_order [C01,C02]
         !(old(self).state == State::SynSent || old(self).state == State::SynReceived || old(self).state == State::Established)
             ==> final(self).outgoing.text@ == old(self).outgoing.text@,   //# refused_after_close [C01,C03]
 //@ end
@@ -782,9 +782,9 @@ impl Tcb {
         final(self).state == old(self).state && final(self).snd == old(self).snd && final(self).rcv == old(self).rcv
             && final(self).outgoing == old(self).outgoing && final(self).timeouts == old(self).timeouts,   //# only_drains_buffer [C01,C17]
         // (C01) reads hand out the buffered bytes exactly once, in order
-        r@ + final(self).incoming.text@ == old(self).incoming.text@,   //# delivers_buffer_exactly_once [C01]
+        r@ + final(self).incoming.text@ == old(self).incoming.text@,   //# delivers_buffer_exactly_once [C01,C02]
         (old(self).state != State::Closing && old(self).state != State::LastAck && old(self).state != State::TimeWait)
-            ==> r@ == old(self).incoming.text@,   //# delivers_everything_buffered [C01]
+            ==> r@ == old(self).incoming.text@,   //# delivers_everything_buffered [C01,C02]
 //@ end
 
 //@ item sim/elvis-core/src/protocols/tcp/tcb.rs :: impl Tcb / fn close id=Tcb.close
@@ -858,12 +858,12 @@ impl Tcb {
         (old(self).outgoing.text@.len() - final(self).outgoing.text@.len()) > 0 ==>
             q_bytes(old(self).outgoing.retransmit@) + (old(self).outgoing.text@.len() - final(self).outgoing.text@.len()) <= old(self).snd.wnd,   //# new_data_stays_inside_send_window [C17]
         // (C01) new data segments carry the submitted stream in order, numbered consecutively from SND.NXT
-        final(self).outgoing.text@ == old(self).outgoing.text@.subrange(old(self).outgoing.text@.len() - final(self).outgoing.text@.len(), old(self).outgoing.text@.len() as int),   //# unsent_text_is_the_remaining_suffix [C01]
+        final(self).outgoing.text@ == old(self).outgoing.text@.subrange(old(self).outgoing.text@.len() - final(self).outgoing.text@.len(), old(self).outgoing.text@.len() as int),   //# unsent_text_is_the_remaining_suffix [C01,C02]
         final(self).snd.nxt == add32(old(self).snd.nxt, (old(self).outgoing.text@.len() - final(self).outgoing.text@.len()) as u32),   //# snd_nxt_advances_by_the_new_data [C01,C12]
         final(self).outgoing.retransmit@.len() >= old(self).outgoing.retransmit@.len(),
         same_segments(final(self).outgoing.retransmit@.subrange(0, old(self).outgoing.retransmit@.len() as int), old(self).outgoing.retransmit@),   //# queued_segments_untouched [C01]
         rtx_tiles(final(self).outgoing.retransmit@, old(self).outgoing.retransmit@.len() as int, old(self).snd.nxt,
-            old(self).outgoing.text@.subrange(0, old(self).outgoing.text@.len() - final(self).outgoing.text@.len())),   //# new_segments_carry_the_stream_in_order [C01,C12]
+            old(self).outgoing.text@.subrange(0, old(self).outgoing.text@.len() - final(self).outgoing.text@.len())),   //# new_segments_carry_the_stream_in_order [C01,C12,C02]
         // data is only segmentized in the states that may send
         !(old(self).state == State::SynSent || old(self).state == State::SynReceived || old(self).state == State::Established || old(self).state == State::CloseWait)
             ==> final(self).outgoing.text@.len() == old(self).outgoing.text@.len(),   //# no_new_data_after_close [C03,C01]
@@ -872,7 +872,7 @@ impl Tcb {
         final(self).outgoing.oneshot@.len() == 0,
         // every data-bearing segment handed to the network is one of the queued (stream-consistent) segments
         forall|j: int| 0 <= j < r@.len() && (#[trigger] r@[j]).text@.len() > 0 ==>
-            exists|i: int| 0 <= i < final(self).outgoing.retransmit@.len() && final(self).outgoing.retransmit@[i].segment == r@[j],   //# only_queued_segments_are_sent [C01]
+            exists|i: int| 0 <= i < final(self).outgoing.retransmit@.len() && final(self).outgoing.retransmit@[i].segment == r@[j],   //# only_queued_segments_are_sent [C01,C02]
 //@ loop 2
                     invariant
                         tcb_inv(*self), self.mtu == old(self).mtu, self.mtu >= 100, max_segment_length == self.mtu - 50,
@@ -966,7 +966,7 @@ impl Tcb {
         (r == AdvanceTimeResult::CloseConnection) == (old(self).timeouts.time_wait matches Some(tw) && dur_ns(delta_time) > dur_ns(tw)),   //# released_exactly_when_time_wait_expires [C03]
         // after a retransmission timeout everything still on the queue is due again
         dur_ns(delta_time) > dur_ns(old(self).timeouts.retransmission) ==>
-            forall|i: int| 0 <= i < final(self).outgoing.retransmit@.len() ==> (#[trigger] final(self).outgoing.retransmit@[i]).needs_transmit,   //# rto_marks_queue_for_retransmission [C01]
+            forall|i: int| 0 <= i < final(self).outgoing.retransmit@.len() ==> (#[trigger] final(self).outgoing.retransmit@[i]).needs_transmit,   //# rto_marks_queue_for_retransmission [C01,C02]
 //@ start
         let ghost q0 = self.outgoing.retransmit@;
         proof { reveal(rtx_wf); }
@@ -1008,7 +1008,7 @@ impl Tcb {
             && final(self).outgoing.text == old(self).outgoing.text && final(self).snd.nxt == old(self).snd.nxt && final(self).snd.iss == old(self).snd.iss,   //# never_sends_new_data [C17]
         // (C01) bytes already buffered for the application are never altered
         r == SegmentArrivesResult::Ok ==> (final(self).incoming.text@.len() >= old(self).incoming.text@.len()
-            && final(self).incoming.text@.subrange(0, old(self).incoming.text@.len() as int) == old(self).incoming.text@),   //# buffered_bytes_untouched [C01]
+            && final(self).incoming.text@.subrange(0, old(self).incoming.text@.len() as int) == old(self).incoming.text@),   //# buffered_bytes_untouched [C01,C02]
 //@ after 1 `self.incoming.segments.push(segment);`
         proof {
             reveal(heap_valid);
@@ -1082,7 +1082,7 @@ impl Tcb {
         // (C03) the TCB is released only by the final ACK in LAST-ACK or by a reset
         deletes_tcb(r) ==> (segment.header.ctl.srst() || (old(self).state == State::LastAck && segment.header.ctl.sack())),   //# release_only_by_final_ack_or_reset [C03]
         // (C01) bytes already buffered for the application are never altered, and the buffer respects the advertised window
-        final(self).incoming.text@.len() >= old(self).incoming.text@.len() && final(self).incoming.text@.subrange(0, old(self).incoming.text@.len() as int) == old(self).incoming.text@,   //# buffered_bytes_untouched [C01]
+        final(self).incoming.text@.len() >= old(self).incoming.text@.len() && final(self).incoming.text@.subrange(0, old(self).incoming.text@.len() as int) == old(self).incoming.text@,   //# buffered_bytes_untouched [C01,C02]
         // (C01) what is appended is exactly the part of the segment text that continues the stream at RCV.NXT,
         //       and RCV.NXT advances by exactly that many octets (plus one for a consumed FIN)
         old(self).state != State::SynSent ==> ({
@@ -1092,7 +1092,7 @@ impl Tcb {
             &&& (final(self).rcv.nxt == add32(old(self).rcv.nxt, a as u32)
                  || (segment.header.ctl.sfin() && final(self).rcv.nxt == add32(old(self).rcv.nxt, (a + 1) as u32)))
             &&& final(self).rcv.irs == old(self).rcv.irs
-        }),   //# appended_bytes_continue_the_stream [C01,C12]
+        }),   //# appended_bytes_continue_the_stream [C01,C12,C02]
         // (C01) RFC 9293 3.4 / 3.10.7.3: text carried by the SYN,ACK that completes an active open occupies the sequence numbers
         //       after the SYN and is delivered from its first octet, as far as the buffer has room
         (old(self).state == State::SynSent && segment.header.ctl.ssyn() && !segment.header.ctl.srst() && !segment.header.ctl.sfin()
@@ -1101,13 +1101,13 @@ impl Tcb {
             &&& a == vstd::math::min(segment.text@.len() as int, 65535 - old(self).incoming.text@.len())
             &&& final(self).incoming.text@.subrange(old(self).incoming.text@.len() as int, old(self).incoming.text@.len() + a) == segment.text@.subrange(0, a)
             &&& final(self).rcv.nxt == add32(segment.header.seq, (1 + a) as u32)
-        }),   //# text_on_a_syn_is_delivered_whole [C01,C12]
+        }),   //# text_on_a_syn_is_delivered_whole [C01,C12,C02]
         // (C01, C03) RFC 9293 3.10.7.4 seventh: in ESTABLISHED / FIN-WAIT-1 / FIN-WAIT-2 acceptable text is taken, as far as the buffer has room
         ((old(self).state == State::Established || old(self).state == State::FinWait1 || old(self).state == State::FinWait2)
             && r == ProcessSegmentResult::Success && !segment.header.ctl.ssyn() && !segment.header.ctl.srst()
             && seq_acceptable(old(self).rcv.nxt, old(self).rcv.wnd, segment.text@.len() as u32, segment.header.seq, false, segment.header.ctl.sfin())
             && cdist(segment.header.seq, old(self).rcv.nxt) <= segment.text@.len())
-            ==> final(self).incoming.text@.len() - old(self).incoming.text@.len() == vstd::math::min(segment.text@.len() - cdist(segment.header.seq, old(self).rcv.nxt), 65535 - old(self).incoming.text@.len()),   //# acceptable_text_is_delivered [C01,C03,C12]
+            ==> final(self).incoming.text@.len() - old(self).incoming.text@.len() == vstd::math::min(segment.text@.len() - cdist(segment.header.seq, old(self).rcv.nxt), 65535 - old(self).incoming.text@.len()),   //# acceptable_text_is_delivered [C01,C03,C12,C02]
         // (C03, C01) RFC 9293 3.10.7.4 eighth: a FIN all of whose preceding text has been received is acknowledged -
         //            also when it is a retransmission of a FIN that was consumed before (otherwise a lost ACK is never regenerated)
         (old(self).state != State::SynSent && r == ProcessSegmentResult::Success && segment.header.ctl.sfin()
@@ -1190,7 +1190,7 @@ impl Tcb {
             && heap_seq(t.incoming.segments).len() == 1
             && heap_seq(t.incoming.segments)[0].header.seq == add32(segment.header.seq, 1)
             && heap_seq(t.incoming.segments)[0].text@ == segment.text@
-            && !heap_seq(t.incoming.segments)[0].header.ctl.ssyn()),   //# text_on_a_syn_is_queued_at_irs_plus_one [C01,C12]
+            && !heap_seq(t.incoming.segments)[0].header.ctl.ssyn()),   //# text_on_a_syn_is_queued_at_irs_plus_one [C01,C12,C02]
 //@ end
 
 } // verus!
